@@ -4,7 +4,7 @@ from facts import strip_generics, callee_of
 import sym
 import c12
 
-CONFIGS_QUICK = ["F_all"]
+CONFIGS_QUICK = ["F_all", "F_noenc", "F_def"]  # every configuration whose cfg-gated code the property depends on
 CONFIGS_THOROUGH = ["F_all", "F_noenc", "F_def"]
 TECHNIQUE = 'static analysis: who-may-call rule for lossy decoders (expected 0, positive control), state-machine extraction for EncodingRef with guards, BOM constant table'
 EXPLANATION = (
@@ -81,6 +81,13 @@ def r1_no_lossy(ctx):
                     if r is None:
                         continue
                     d = decision_on(p, lambda t: t[0] == "discr" and t[1][0] == "pl" and call_is(t[1][1], "decode_to_string_without_replacement"))
+                    dec = [c for c in calls(p) if name_is(c[2], "decode_to_string_without_replacement")]
+                    if not dec and ends(p) == "ret" and not (r[0] == "call" or is_error_exit(p)):
+                        # a path that produces a result without running the decoder of the given encoding
+                        utf8 = any(e[0] == "switch" and e[2][0] == "call" and name_is(e[2][2], "eq", "ne") and "UTF_8" in str(e[2]) and ((e[3] != 0) == name_is(e[2][2], "eq")) for e in p)
+                        ctx.ob("R1", "decode_into:shortcut", utf8, "decode_into() may skip the decoder only when encoding == UTF_8 (str::from_utf8 is then the decoder)", config=cfg)
+                    for c in dec:
+                        ctx.ob("R1", "decode_into:last-chunk", len(c[3]) >= 4 and strip_wrappers(c[3][3]) == ("c", "bool", True), "the whole payload is given at once: `last` must be true so that a truncated trailing sequence is malformed", config=cfg)
                     if d is None:
                         continue
                     rv = describe_ret(r, 1)[0]
@@ -144,6 +151,26 @@ def r2_machine(ctx):
                 ok = False
                 why = "unexpected transition"
             ctx.ob("R2", "write:%s:%s" % (fn, var), ok, "%s (guarded=%s)" % (why, guard), config=cfg)
+        # the transitions must also be *taken*: a machine that never leaves Implicit ignores BOMs and declarations
+        have = {(var, "emit_question_mark" if fn.endswith("emit_question_mark") else "event-loop" if ("read_event_impl" in fn or "read_event_into_async" in fn) else "from_str" if fn.endswith("from_str") else fn) for fn, var, guard in ws}
+        for need in (("XmlDetected", "emit_question_mark"), ("BomDetected", "event-loop"), ("Explicit", "from_str")):
+            ctx.ob("R2", "transition-present:%s" % need[0], need in have, "the %s transition is made in %s" % need, config=cfg)
+        q = ctx.body(F, "reader::state::ReaderState::emit_question_mark", "R2")
+        if q is not None:
+            n = 0
+            for p in ctx.paths(q):
+                r = ret_of(p)
+                if r is None or describe_ret(r, 1)[0][:2] != ("Ok", "Decl"):
+                    continue
+                ref = decision_on(p, lambda t: call_is(t, "can_be_refined"))
+                enc = decision_on(p, lambda t: t[0] == "discr" and call_is(t[1], "encoder"))
+                st = [e for e in p if e[0] == "store" and ends_with_fields(e[2], "encoding") and e[3][0] == "agg" and e[3][2] == "XmlDetected"]
+                if ref not in (0, None) and enc == 1:
+                    n += 1
+                    ctx.ob("R2", "emit_question_mark:Decl[refinable,labelled]:refines", len(st) == 1, "a declaration with a known encoding label read in a refinable state must switch the reader to that encoding (stores of XmlDetected on the path: %d)" % len(st), config=cfg)
+                else:
+                    ctx.ob("R2", "emit_question_mark:Decl[refinable=%s,label=%s]:keeps" % (ref not in (0, None), enc), not st, "otherwise the encoding is left alone", config=cfg)
+            ctx.floor("R2", "refining Decl paths", n, 1, config=cfg)
         for fn, var, guard, val in writes:
             if var == "Explicit":
                 ctx.ob("R2", "write:%s:Explicit:utf8" % fn, "static encoding_rs::UTF_8" in str(val), "a reader built from a &str is fixed to UTF-8", config=cfg)
